@@ -34,10 +34,10 @@ func init() {
 			"(R06.5) the text of a token is cleanupToken(position in line, word) computed at its own position; (R03.7) Copyright literals; (R06.2) Copyright pseudo-matches are kept apart from the overlap filter - fails today (known finding D12). Regex coverage of notice templates and list markers is NOT decided."})
 	register(&Check{ID: "C11", Modules: []string{"v2"}, Run: runC11,
 		Explanation: "Thin structural clauses behind 'Normalize lines up with Match': (R11.1) non-interference: the line counter and every Line stored do not depend on the normalize/updateDict flags; (R11.2) Normalize and match use the same tokenizeStream and Normalize returns memory allocated by the call; (R11.3) the ignorable-line patterns are case-insensitive (Normalize sees un-lowered text); " +
-			"(R11.4) number clean-up cannot leave a trailing dot (idempotence under re-tokenisation); (R11.5) every word Normalize writes out is tested not to be the end-of-line token (sibling consistency: newlines come only from line numbers); (R11.7) lower-case word tables consulted by the token clean-up (list markers, spelling variants) are consulted with a case-folded key or only when normalising, because Normalize keeps the capital of a word's first letter; (R06.1) word-table idempotence. Header re-cleaning of numbered markers is NOT decided."})
+			"(R11.4) number clean-up cannot leave a trailing dot (idempotence under re-tokenisation); (R11.5) every word Normalize writes out is tested not to be the end-of-line token (sibling consistency: newlines come only from line numbers); (R11.6) Normalize returns the text it wrote without trimming its beginning (leading line breaks stand for input lines); (R11.8) the word interned by the word flush went through HTML unescaping on every path, whatever the flags; (R06.7) the spelling table is consulted with the cleaned word; (R11.7) lower-case word tables consulted by the token clean-up (list markers, spelling variants) are consulted with a case-folded key or only when normalising, because Normalize keeps the capital of a word's first letter; (R06.1) word-table idempotence. Header re-cleaning of numbered markers is NOT decided."})
 	register(&Check{ID: "C17", Modules: []string{""}, Run: runC17,
 		Explanation: "Thin structural clauses behind 'v1 offsets delimit real text': (R17.1) every contribution to a token's Text is the input substring s[i:i+size] at the decoded rune's position, or string(r) only under a guard that excludes the invalid-rune replacement, and Offset is that i - or the Text is one substring s[a:b] with Offset a and b a scan position or len(s); (R17.2) candidate ranges are sorted by target position before they are untangled; " +
-			"(R17.3) the string that is tokenised is the string offsets are later applied to. Range merging/coalescing bounds are NOT decided."})
+			"(R17.3) the string that is tokenised is the string offsets are later applied to; (R17.4) a candidate's byte range runs from the Offset of token TargetStart to Offset+len(Text) (bytes) of token TargetEnd-1. Range merging/coalescing bounds are NOT decided."})
 }
 
 // ---------------------------------------------------------------------------------------------
@@ -641,6 +641,10 @@ func runC06(c *Ctx) {
 		c.R.RequireMin("R06.5", "cleanupToken call sites", n, 1)
 	}
 
+	// R06.6 / R06.7
+	checkNoticePatternsUnconditional(c, p)
+	checkSpellingLookupOnCleanText(c, p)
+
 	// R06.3 hyphenation flags survive refills
 	checkFlagsSurviveRefill(c, p)
 
@@ -846,6 +850,243 @@ func runC11(c *Ctx) {
 	}
 	checkWordTable(c, p)
 	checkCaseFoldedLookups(c, p, ts)
+	checkSpellingLookupOnCleanText(c, p)
+	// R11.6 the normalised text is returned as it was written: line k of the result is line k of the input
+	if nz != nil {
+		n := 0
+		for _, b := range nz.Blocks {
+			ret, ok := b.Instrs[len(b.Instrs)-1].(*ssa.Return)
+			if !ok || len(ret.Results) != 1 {
+				continue
+			}
+			n++
+			v := ret.Results[0]
+			bad := ""
+			for d := 0; d < 4; d++ {
+				call, isCall := v.(*ssa.Call)
+				if !isCall {
+					break
+				}
+				name := core.StaticCalleeName(&call.Call)
+				switch name {
+				case "bytes.TrimSpace", "bytes.Trim", "bytes.TrimLeft", "bytes.TrimLeftFunc", "bytes.TrimFunc", "bytes.TrimPrefix",
+					"strings.TrimSpace", "strings.Trim", "strings.TrimLeft", "strings.TrimLeftFunc", "strings.TrimFunc", "strings.TrimPrefix":
+					bad = name
+				}
+				if len(call.Call.Args) == 0 {
+					break
+				}
+				v = call.Call.Args[0]
+				if cv, isCv := v.(*ssa.Convert); isCv {
+					v = cv.X
+				}
+			}
+			c.R.Check(bad == "", "R11.6", "Normalize returns the text it wrote without trimming its beginning", p.Pos(ret.Pos()), "the buffer's contents are returned as written",
+				"the result passes through "+bad+": leading line breaks stand for input lines without words (blank lines, removed notices), so trimming them moves every word to an earlier line than Match reports")
+		}
+		c.R.RequireMin("R11.6", "return statements of Normalize", n, 1)
+	}
+	// R11.8 the word that is interned went through HTML unescaping whatever the flags
+	nU := 0
+	for _, fn := range v2Funcs(p) {
+		set := map[ssa.Value]bool{}
+		for _, call := range core.CallsIn(fn) {
+			if core.StaticCalleeName(call.Common()) == "html.UnescapeString" {
+				if v := call.Value(); v != nil {
+					set[v] = true
+				}
+			}
+		}
+		if len(set) == 0 {
+			continue
+		}
+		for _, call := range core.CallsIn(fn) {
+			cal := call.Common().StaticCallee()
+			if cal == nil || !p.IsFn(cal, v2pkg, "(*dictionary).add") || len(call.Common().Args) < 2 {
+				continue
+			}
+			nU++
+			dep := dependsOnAnyThroughPhi(call.Common().Args[1], set, 0)
+			c.R.Check(dep, "R11.8", core.ShortFn(fn)+": every word interned by the word flush is the unescaped word", p.Pos(call.Pos()), "the interned text is computed from html.UnescapeString(word) on every path",
+				"a path interns the word without HTML unescaping (e.g. only for one value of the normalize flag): Normalize and Match then see different words for input that contains character references")
+		}
+	}
+	c.R.RequireMin("R11.8", "interning sites in the word flush", nU, 1)
+}
+
+// dependsOnAnyThroughPhi: like dependsOnAny, but a phi depends on the set only if every edge does.
+func dependsOnAnyThroughPhi(v ssa.Value, set map[ssa.Value]bool, depth int) bool {
+	if set[v] {
+		return true
+	}
+	if depth > 8 {
+		return false
+	}
+	if phi, ok := v.(*ssa.Phi); ok {
+		for _, e := range phi.Edges {
+			if e == v {
+				continue
+			}
+			if !dependsOnAnyThroughPhi(e, set, depth+1) {
+				return false
+			}
+		}
+		return true
+	}
+	in, ok := v.(ssa.Instruction)
+	if !ok {
+		return false
+	}
+	for _, op := range in.Operands(nil) {
+		if *op != nil && dependsOnAnyThroughPhi(*op, set, depth+1) {
+			return true
+		}
+	}
+	return false
+}
+
+// checkNoticePatternsUnconditional: R06.6. Whether a line is a notice is decided by the ignorableTexts patterns alone: in
+// the function that turns a line's words into tokens, the patterns are consulted on every path that goes on to produce
+// tokens (no cheaper pre-test decides that a line cannot be a notice).
+func checkNoticePatternsUnconditional(c *Ctx, p *core.Prog) {
+	g := p.Global(v2pkg, "ignorableTexts")
+	if !c.R.Anchor(g != nil, "v2.ignorableTexts") {
+		return
+	}
+	n := 0
+	// functions that consult the patterns themselves
+	direct := map[*ssa.Function]bool{}
+	for _, fn := range v2Funcs(p) {
+		for _, b := range fn.Blocks {
+			for _, in := range b.Instrs {
+				if u, ok := in.(*ssa.UnOp); ok && u.X == ssa.Value(g) {
+					direct[fn] = true
+				}
+			}
+		}
+	}
+	consults := func(f *ssa.Function) bool {
+		for _, h := range pkgClosure(f, v2pkg) {
+			if direct[h] {
+				return true
+			}
+		}
+		return false
+	}
+	for _, fn := range v2Funcs(p) {
+		// consult sites: loads of the table, and calls of helpers that consult it
+		var sites []ssa.Instruction
+		for _, b := range fn.Blocks {
+			for _, in := range b.Instrs {
+				if u, ok := in.(*ssa.UnOp); ok && u.X == ssa.Value(g) {
+					sites = append(sites, u)
+				}
+				if call, ok := in.(*ssa.Call); ok {
+					if cal := call.Call.StaticCallee(); cal != nil && cal != fn && core.FuncPkgPath(cal) == v2pkg && len(cal.Blocks) > 0 && consults(cal) {
+						// only helpers that return a verdict (a boolean), not the callers of this function
+						if cal.Signature.Results().Len() == 1 && isBool(cal.Signature.Results().At(0).Type()) && consultsOnEveryPath(cal, g) {
+							sites = append(sites, call)
+						}
+					}
+				}
+			}
+		}
+		if len(sites) == 0 {
+			continue
+		}
+		for _, lit := range structLits([]*ssa.Function{fn}, "/v2.indexedToken") {
+			n++
+			dom := false
+			for _, st := range sites {
+				if st.Block().Dominates(lit.alloc.Block()) {
+					dom = true
+				}
+			}
+			c.R.Check(dom, "R06.6", core.ShortFn(fn)+": the notice patterns are consulted before any token of the line is produced", p.Pos(lit.alloc.Pos()),
+				"the range over ignorableTexts dominates the token loop", "a path reaches the token loop without consulting the notice patterns (a pre-test stands in for them): a notice line the pre-test does not anticipate is tokenised as text")
+		}
+	}
+	c.R.RequireMin("R06.6", "token literals behind the notice patterns", n, 1)
+}
+
+// consultsOnEveryPath: in the verdict helper f, a load of the table dominates every return (no early verdict before the
+// table was looked at).
+func consultsOnEveryPath(f *ssa.Function, g *ssa.Global) bool {
+	var loads []*ssa.BasicBlock
+	for _, b := range f.Blocks {
+		for _, in := range b.Instrs {
+			if u, ok := in.(*ssa.UnOp); ok && u.X == ssa.Value(g) {
+				loads = append(loads, b)
+			}
+		}
+	}
+	if len(loads) == 0 {
+		return false
+	}
+	for _, b := range f.Blocks {
+		if _, ok := b.Instrs[len(b.Instrs)-1].(*ssa.Return); !ok {
+			continue
+		}
+		dom := false
+		for _, lb := range loads {
+			if lb.Dominates(b) {
+				dom = true
+			}
+		}
+		if !dom {
+			return false
+		}
+	}
+	return true
+}
+
+// checkSpellingLookupOnCleanText: R06.7. The spelling-variant table has bare words as keys, so it is consulted with the
+// word after punctuation was stripped from it, never with the raw buffered word (or a substring / re-cased copy of it).
+func checkSpellingLookupOnCleanText(c *Ctx, p *core.Prog) {
+	g := p.Global(v2pkg, "interchangeableWords")
+	if !c.R.Anchor(g != nil, "v2.interchangeableWords") {
+		return
+	}
+	n := 0
+	for _, fn := range v2Funcs(p) {
+		for _, b := range fn.Blocks {
+			for _, in := range b.Instrs {
+				lk, ok := in.(*ssa.Lookup)
+				if !ok {
+					continue
+				}
+				ld, ok := lk.X.(*ssa.UnOp)
+				if !ok || ld.X != ssa.Value(g) {
+					continue
+				}
+				n++
+				// is the key the raw word (a string parameter), possibly sliced or re-cased?
+				k := lk.Index
+				raw := ""
+				for d := 0; d < 6 && k != nil; d++ {
+					switch x := core.Unspill(k).(type) {
+					case *ssa.Parameter:
+						raw = x.Name()
+						k = nil
+					case *ssa.Slice:
+						k = x.X
+					case *ssa.Call:
+						switch core.StaticCalleeName(&x.Call) {
+						case "strings.ToLower", "strings.TrimSpace", "strings.ToUpper":
+							k = x.Call.Args[0]
+						default:
+							k = nil
+						}
+					default:
+						k = nil
+					}
+				}
+				c.R.Check(raw == "", "R06.7", core.ShortFn(fn)+": the spelling table is consulted with the cleaned word", p.Pos(lk.Pos()),
+					"the key is computed from the word (not the raw parameter)", "the key is the raw word "+raw+" as it was buffered, punctuation included: a variant spelling next to punctuation (\"licence,\") is not mapped")
+			}
+		}
+	}
+	c.R.RequireMin("R06.7", "lookups in the spelling table", n, 1)
 }
 
 // checkCaseFoldedLookups: R11.7. Normalize tokenises with normalize=false, which keeps the case of a word's first
@@ -1308,6 +1549,81 @@ func runC17(c *Ctx) {
 		c.R.Check(ok, "R17.2", "getMatchedRanges orders the matched ranges by target position before untangling", p.Pos(gm.Pos()), why, why+": the untangling and splitting passes assume target order; candidates come back with TargetStart going backwards")
 	}
 
+	// R17.4 the byte range of a candidate: from the Offset of its first target token to the end (Offset + len(Text), in
+	// bytes) of its last one, which is token TargetEnd-1 (TargetEnd is exclusive)
+	if tr := p.Func(ssPkg, "(MatchRanges).TargetRange"); c.R.Anchor(tr != nil, "searchset.(MatchRanges).TargetRange") {
+		// tokenField: v == Tokens[idx].F  ->  (idx, F)
+		tokenField := func(v ssa.Value) (ssa.Value, string) {
+			ld, ok := v.(*ssa.UnOp)
+			if !ok {
+				return nil, ""
+			}
+			fa, ok := ld.X.(*ssa.FieldAddr)
+			if !ok {
+				return nil, ""
+			}
+			tp, ok := fa.X.(*ssa.UnOp)
+			if !ok {
+				return nil, ""
+			}
+			ia, ok := tp.X.(*ssa.IndexAddr)
+			if !ok || !strings.HasSuffix(core.AP(ia.X), "Tokens") {
+				return nil, ""
+			}
+			return ia.Index, core.FieldName(fa)
+		}
+		isRangeField := func(v ssa.Value, field string) bool {
+			ld, ok := v.(*ssa.UnOp)
+			if !ok {
+				return false
+			}
+			fa, ok := ld.X.(*ssa.FieldAddr)
+			return ok && core.FieldName(fa) == field
+		}
+		okS, okE, whyE := false, false, "the end of the range is not Offset + len(Text) of token TargetEnd-1"
+		n := 0
+		for _, b := range tr.Blocks {
+			ret, ok := b.Instrs[len(b.Instrs)-1].(*ssa.Return)
+			if !ok || len(ret.Results) != 2 {
+				continue
+			}
+			n++
+			if idx, f := tokenField(ret.Results[0]); idx != nil && f == "Offset" && isRangeField(idx, "TargetStart") {
+				okS = true
+			}
+			if bo, ok := ret.Results[1].(*ssa.BinOp); ok && bo.Op == token.ADD {
+				for _, pair := range [][2]ssa.Value{{bo.X, bo.Y}, {bo.Y, bo.X}} {
+					ia, fa := tokenField(pair[0])
+					call, isCall := pair[1].(*ssa.Call)
+					if ia == nil || fa != "Offset" || !isCall {
+						continue
+					}
+					bi, isB := call.Call.Value.(*ssa.Builtin)
+					if !isB || bi.Name() != "len" {
+						whyE = "the length added to the last token's Offset is " + core.StaticCalleeName(&call.Call) + "(...), not the byte length len(Text): for non-ASCII text the range ends inside the token"
+						continue
+					}
+					ib, fb := tokenField(call.Call.Args[0])
+					if ib == nil || fb != "Text" || !sameExpr(ia, ib, 0) {
+						whyE = "Offset and Text are not taken from the same token"
+						continue
+					}
+					sub, isSub := ia.(*ssa.BinOp)
+					if !isSub || sub.Op != token.SUB || !isRangeField(sub.X, "TargetEnd") {
+						whyE = "the last token is taken at index " + core.AP(ia) + ", not TargetEnd-1 (TargetEnd is exclusive): the range includes a token that is not part of the candidate, or indexes past the end"
+						continue
+					}
+					if k, isK := core.ConstInt(sub.Y); !isK || k != 1 {
+						continue
+					}
+					okE, whyE = true, "Tokens[TargetEnd-1].Offset + len(Tokens[TargetEnd-1].Text)"
+				}
+			}
+		}
+		c.R.Check(n > 0 && okS, "R17.4", "TargetRange starts at the Offset of token TargetStart of the first range", p.Pos(tr.Pos()), "Tokens[m[0].TargetStart].Offset", "the start of the byte range is not the Offset of the candidate's first target token")
+		c.R.Check(n > 0 && okE, "R17.4", "TargetRange ends at Offset + len(Text) of token TargetEnd-1 of the last range", p.Pos(tr.Pos()), whyE, whyE)
+	}
+
 	// R17.3 the tokenised string is the string offsets are applied to
 	nw := p.Func(ssPkg, "New")
 	if c.R.Anchor(nw != nil, "searchset.New") {
@@ -1437,6 +1753,49 @@ func sameValueAt(a, b ssa.Value) bool {
 		case *ssa.Store, *ssa.Call, *ssa.Go, *ssa.Defer, *ssa.MapUpdate:
 			return false
 		}
+	}
+	return false
+}
+
+// sameExpr: a and b are the same SSA value or structurally identical side-effect-free expressions (loads, field and
+// index addresses, arithmetic on constants and parameters).
+func sameExpr(a, b ssa.Value, depth int) bool {
+	if a == b {
+		return true
+	}
+	if depth > 10 || a == nil || b == nil {
+		return false
+	}
+	switch x := a.(type) {
+	case *ssa.Const:
+		y, ok := b.(*ssa.Const)
+		return ok && x.Value != nil && y.Value != nil && x.Value.ExactString() == y.Value.ExactString()
+	case *ssa.UnOp:
+		y, ok := b.(*ssa.UnOp)
+		return ok && x.Op == y.Op && sameExpr(x.X, y.X, depth+1)
+	case *ssa.FieldAddr:
+		y, ok := b.(*ssa.FieldAddr)
+		return ok && x.Field == y.Field && sameExpr(x.X, y.X, depth+1)
+	case *ssa.Field:
+		y, ok := b.(*ssa.Field)
+		return ok && x.Field == y.Field && sameExpr(x.X, y.X, depth+1)
+	case *ssa.IndexAddr:
+		y, ok := b.(*ssa.IndexAddr)
+		return ok && sameExpr(x.X, y.X, depth+1) && sameExpr(x.Index, y.Index, depth+1)
+	case *ssa.BinOp:
+		y, ok := b.(*ssa.BinOp)
+		return ok && x.Op == y.Op && sameExpr(x.X, y.X, depth+1) && sameExpr(x.Y, y.Y, depth+1)
+	case *ssa.Call:
+		y, ok := b.(*ssa.Call)
+		if !ok {
+			return false
+		}
+		bx, ok1 := x.Call.Value.(*ssa.Builtin)
+		by, ok2 := y.Call.Value.(*ssa.Builtin)
+		if !ok1 || !ok2 || bx.Name() != "len" || by.Name() != "len" || len(x.Call.Args) != 1 || len(y.Call.Args) != 1 {
+			return false
+		}
+		return sameExpr(x.Call.Args[0], y.Call.Args[0], depth+1)
 	}
 	return false
 }
